@@ -70,6 +70,123 @@ def RegNonneg : OpExpr → Bool
 
 end OpExpr
 
+/-! ### static typing of operator expressions: which class Python returns, which shape, which refusal -/
+
+/-- the class of the object an expression evaluates to (`gen` = one of scipy's generic combinators) -/
+inductive Kind
+  | slr | nrm (transposed : Bool) | lap | con | pol | gen
+deriving DecidableEq, Repr
+
+structure Ty where
+  kind : Kind
+  nRow : Nat
+  nCol : Nat
+deriving DecidableEq, Repr
+
+/-- class of `-x` and of `x * c` -/
+def Kind.scaled : Kind → Kind
+  | .slr => .slr | .pol => .pol | .con => .con | _ => .gen
+
+/-- `a + b` -/
+def Ty.add (t u : Ty) : Except PyErr Ty :=
+  match t.kind, u.kind with
+  | .slr, .slr => if t.nRow = u.nRow ∧ t.nCol = u.nCol then .ok t else .error .valueError
+  | .slr, _ => .error .attributeError
+  | _, _ => if t.nRow = u.nRow ∧ t.nCol = u.nCol then .ok ⟨.gen, t.nRow, t.nCol⟩ else .error .valueError
+
+namespace OpExpr
+
+/-- the class and shape of the value of an expression, or the exception Python raises; computed from the
+shapes alone (plus the emptiness test of `check_format` and the lengths of the low-rank vectors) -/
+def type? : OpExpr → Except PyErr Ty
+  | slr s ts =>
+    if ts.all (fun t => t.1.length == s.nRow && t.2.length == s.nCol) then .ok ⟨.slr, s.nRow, s.nCol⟩
+    else .error .valueError
+  | regularizer a _ => .ok ⟨.slr, a.nRow, a.nCol⟩
+  | normalizer a _ => .ok ⟨.nrm false, a.nRow, a.nCol⟩
+  | laplacian a _ _ _ => if a.nRow ≠ a.nCol then .error .valueError else .ok ⟨.lap, a.nRow, a.nRow⟩
+  | coneighbor a _ => if a.isNull then .error .valueError else .ok ⟨.con, a.nRow, a.nRow⟩
+  | polynome a cs =>
+    if cs.isEmpty then .error .valueError
+    else if a.isNull then .error .valueError
+    else if a.nRow ≠ a.nCol then .error .valueError
+    else .ok ⟨.pol, a.nRow, a.nRow⟩
+  | neg e => do let t ← e.type?; pure ⟨t.kind.scaled, t.nRow, t.nCol⟩
+  | mul e _ => do let t ← e.type?; pure ⟨t.kind.scaled, t.nRow, t.nCol⟩
+  | add e f => do
+    let t ← e.type?
+    let u ← f.type?
+    t.add u
+  | sub e f => do
+    let t ← e.type?
+    let u ← f.type?
+    t.add ⟨u.kind.scaled, u.nRow, u.nCol⟩
+  | addCsr e a => do
+    let t ← e.type?
+    match t.kind with
+    | .slr => if t.nRow = a.nRow ∧ t.nCol = a.nCol then pure t else .error .valueError
+    | _ => .error .unsupported
+  | subCsr e a => do
+    let t ← e.type?
+    match t.kind with
+    | .slr => if t.nRow = a.nRow ∧ t.nCol = a.nCol then pure t else .error .valueError
+    | _ => .error .unsupported
+  | transpose e => do
+    let t ← e.type?
+    match t.kind with
+    | .slr => pure ⟨.slr, t.nCol, t.nRow⟩
+    | .nrm b => pure ⟨.nrm (!b), t.nCol, t.nRow⟩
+    | .lap => pure t
+    | .con => pure ⟨.con, t.nCol, t.nRow⟩
+    | .pol => pure t
+    | .gen => .error .unsupported
+  | leftDot m e => do
+    let t ← e.type?
+    match t.kind with
+    | .slr => if m.nCol = t.nRow then pure ⟨.slr, m.nRow, t.nCol⟩ else .error .valueError
+    | .con => if m.nCol = t.nRow then pure ⟨.con, m.nRow, t.nCol⟩ else .error .valueError
+    | _ => .error .attributeError
+  | rightDot e m => do
+    let t ← e.type?
+    match t.kind with
+    | .slr => if t.nCol = m.nRow then pure ⟨.slr, t.nRow, m.nCol⟩ else .error .valueError
+    | .con => if t.nCol = m.nRow then pure ⟨.con, t.nRow, m.nCol⟩ else .error .valueError
+    | _ => .error .attributeError
+  | astype e => do
+    let t ← e.type?
+    match t.kind with
+    | .slr | .lap | .con => pure t
+    | _ => .error .attributeError
+  | d2u e => do
+    let t ← e.type?
+    match t.kind with
+    | .slr => if t.nRow = t.nCol then pure t else .error .valueError
+    | _ => .error .typeError
+  | b2d e => do
+    let t ← e.type?
+    match t.kind with
+    | .slr => pure ⟨.slr, t.nRow + t.nCol, t.nRow + t.nCol⟩
+    | _ => .error .typeError
+  | b2u e => do
+    let t ← e.type?
+    match t.kind with
+    | .slr => pure ⟨.slr, t.nRow + t.nCol, t.nRow + t.nCol⟩
+    | _ => .error .typeError
+  | normalize e => do
+    let t ← e.type?
+    match t.kind with
+    | .slr | .con => pure t
+    | _ => .error .unsupported
+
+end OpExpr
+
+/-- class and shape of an operator value -/
+def Op.kind : Op → Kind
+  | .slr _ => .slr | .nrm _ t => .nrm t | .lap _ => .lap | .con _ => .con | .pol _ => .pol
+  | .gsum _ _ => .gen | .gscaled _ _ => .gen
+
+def Op.ty (o : Op) : Ty := ⟨o.kind, o.nRow, o.nCol⟩
+
 /-! ### comparison within the tolerance of DESIGN §8 -/
 
 /-- `|a - b| ≤ tol · (1 + scale)` -/
